@@ -19,8 +19,11 @@ VERIF = os.path.dirname(os.path.dirname(os.path.abspath(__file__)))
 PY = "/venv/bin/python"
 
 
-def sh(cmd, cwd=None, timeout=3600):
-    p = subprocess.run(cmd, shell=True, cwd=cwd, capture_output=True, text=True, timeout=timeout)
+def sh(cmd, cwd=None, timeout=3600, pypath=None):
+    env = dict(os.environ)
+    if pypath:
+        env["PYTHONPATH"] = pypath
+    p = subprocess.run(cmd, shell=True, cwd=cwd, capture_output=True, text=True, timeout=timeout, env=env)
     return p.returncode, (p.stdout + p.stderr)
 
 
@@ -31,13 +34,13 @@ def main():
     patch = os.path.join(out, "patch.diff")
     demo = os.path.join(out, "demo.py")
     # 1. demo with / without, test suite with
-    rc_with, o = sh(f"{PY} {demo}", cwd=wt)
+    rc_with, o = sh(f"{PY} {demo}", cwd=wt, pypath=wt)
     meta["ran"].append({"cmd": "demo.py with the change", "rc": rc_with, "tail": o[-300:]})
     sh("git stash", cwd=wt)
-    rc_without, o = sh(f"{PY} {demo}", cwd=wt)
+    rc_without, o = sh(f"{PY} {demo}", cwd=wt, pypath=wt)
     meta["ran"].append({"cmd": "demo.py without the change", "rc": rc_without, "tail": o[-300:]})
     sh("git stash pop", cwd=wt)
-    rc_t, o = sh(f"{PY} -m pytest -q -p no:cacheprovider tests 2>&1 | tail -3", cwd=wt)
+    rc_t, o = sh(f"{PY} -m pytest -q -p no:cacheprovider tests 2>&1 | tail -3", cwd=wt, pypath=wt)
     meta["ran"].append({"cmd": "pytest tests (with the change)", "rc": rc_t, "tail": o[-300:]})
     passed = " passed" in o and "failed" not in o and "error" not in o.lower()
     meta["confirmed"] = bool(rc_with != 0 and rc_without == 0 and passed)
@@ -48,8 +51,12 @@ def main():
         return 2
     rc, o = sh(f"git -C /repo apply {patch}")
     if rc != 0:
+        rc, o = sh(f"git -C /repo apply -3 {patch}")
+        sh("git -C /repo reset -q")
+    if rc != 0:
         print("patch does not apply to /repo:", o)
         meta["applies"] = False
+        sh("git -C /repo checkout -- .")
     else:
         meta["applies"] = True
         try:
